@@ -160,6 +160,8 @@ def gen_case(rng, idx):
         fault = "bad_yaml"
     case = {"idx": idx, "kind": kind, "elems": elems, "fault": fault, "logging": rng.random() < 0.3,
             "sigint_after": rng.choice([0.0, 0.02, 0.1, 0.3])}
+    if kind == "py":
+        case["pyname"] = rng.choice(["config.py", "cobald.py", "site_config.py", "trio.py", "logging.py", "verifplug.py"])
     if fault == "service_fail":
         svc = [e for e in elems if e["flavour"]]
         if not svc:
@@ -190,6 +192,9 @@ def corpus():
     yield {"idx": 9004, "kind": "yaml", "fault": None, "logging": False, "sigint_after": 0.1,
            "elems": [{"cls": "CtrlTrio", "ident": 1, "flavour": "trio", "form": "tag", "slow": 0.3},
                      {"cls": "PoolThreading", "ident": 2, "flavour": "threading", "form": "tag", "slow": 0.3}]}
+    yield {"idx": 9005, "kind": "py", "fault": None, "logging": False, "sigint_after": 0.0, "pyname": "cobald.py",
+           "elems": [{"cls": "CtrlTrio", "ident": 1, "flavour": "trio", "form": "tag"},
+                     {"cls": "PoolAsyncio", "ident": 2, "flavour": "asyncio", "form": "tag"}]}
     yield {"idx": 9001, "kind": "py", "fault": None, "logging": False, "sigint_after": 0.0,
            "elems": [{"cls": "CtrlAsyncio", "ident": 1, "flavour": "asyncio", "form": "tag"},
                      {"cls": "PoolThreading", "ident": 2, "flavour": "threading", "form": "tag"}]}
@@ -217,7 +222,10 @@ def write_config(case, d):
     elems = case["elems"]
     fault = case["fault"]
     if case["kind"] == "py":
-        path = os.path.join(d, "config.cfg" if fault == "unknown_ext" else "config.py")
+        # the configuration lives outside the working directory and may be named like any module (its name is
+        # nobody's business: `cobald.py`, `trio.py`, `logging.py` are natural names for a site's configuration)
+        os.makedirs(os.path.join(d, "etc"), exist_ok=True)
+        path = os.path.join(d, "etc", "config.cfg" if fault == "unknown_ext" else case.get("pyname", "config.py"))
         lines = ["import verifplug"]
         if fault == "py_raises":
             lines.append("raise RuntimeError('broken python configuration')")
